@@ -1,7 +1,25 @@
 import Gaftools.Props.TieA4
 import Gaftools.Props.TieA
+import Gaftools.Props.TieA11
 #print axioms Gaftools.TieA.mergeNodes_gen_eq_model
 #print axioms Gaftools.TieA.searchIv_gen_eq_model
 #print axioms Gaftools.TieA.overlapCaseConv_gen_eq_model
 #print axioms Gaftools.TieA.unstableCoords_gen
 #print axioms Gaftools.TieA.stableCoords_gen
+#print axioms Gaftools.TieA.splitKeepAux_gen
+#print axioms Gaftools.TieA.gafNodes_gen
+#print axioms Gaftools.TieA.toStr_gen
+#print axioms Gaftools.TieA.toStr_gen_pair
+#print axioms Gaftools.TieA.tokStep_orient
+#print axioms Gaftools.TieA.tokStep_name
+#print axioms Gaftools.TieA.tokLoop_aux
+#print axioms Gaftools.TieA.tokLoop_gen
+#print axioms Gaftools.TieA.tokLoop_orients_aux
+#print axioms Gaftools.TieA.tokLoop_orients
+#print axioms Gaftools.TieA.mergeGo_ne_nil
+#print axioms Gaftools.TieA.mergeStep_gen
+#print axioms Gaftools.TieA.mergeLoop_aux
+#print axioms Gaftools.TieA.mergeLoop_gen
+#print axioms Gaftools.TieA.flatMap_dropLast_getLast
+#print axioms Gaftools.TieA.toStableS_gen
+#print axioms Gaftools.TieA.toStableS_emit
